@@ -847,6 +847,8 @@ func (r *runningStep) processInput(input executeInput) {
 	previousStage = string(r.currentStage)
 	r.lock.Unlock()
 	r.stageChangeHandler.OnStepComplete(r, previousStage, &outputID, &outputData, &r.wg)
+	// The step finished with an output, so it cannot be closed anymore.
+	r.markNotClosable(fmt.Errorf("step foreach %s finished", r.runID))
 }
 
 // returns true if there is an error.
